@@ -11,7 +11,9 @@ COQ_IMPORTS = "From Coq Require Import QArith.\nFrom PV Require Import Expr.Valu
 CASE_TYPE = "C12.case"
 CHECK_FN = "C12.check_case"
 SHARD = 700
-RULE = ("a case is one (constant type, initialiser value, channel) triple; channel 'ctor' calls pydsdl.Constant(type, 'X', value) "
+RULE = ("a case is one (constant type, initialiser value, channel) triple, optionally preceded in the same process by priming "
+        "constants (an ASCII character and its canonically equivalent non-ASCII look-alikes, both orders) whose outcomes are "
+        "not compared: the outcome of the case must not depend on them; channel 'ctor' calls pydsdl.Constant(type, 'X', value) "
         "on expression objects, channel 'text' writes ns/T.1.0.dsdl = '<type> X = <initialiser>' and reads it with read_namespace; "
         "observable: Constant.value.native_value (numerator/denominator or bool) and the declared type, or the rejection class; "
         "non-trivial = the value is a rational within 1 of a range boundary of the type, or a string/boolean/set offered to an "
@@ -275,6 +277,26 @@ def other_values():
     return vals
 
 
+def lookalikes():
+    """Code points >= 128 whose NFC/NFKC form is one ASCII character (canonical singletons such as KELVIN SIGN, and a few
+    compatibility look-alikes as controls), each with that ASCII twin."""
+    import unicodedata as u
+    out = []
+    for cp in range(128, 0x110000):
+        if 0xD800 <= cp <= 0xDFFF:
+            continue
+        n = u.normalize("NFC", chr(cp))
+        if len(n) == 1 and ord(n) < 128:
+            out.append((cp, ord(n)))
+    for cp in (0xFF21, 0xFF2B, 0xFF1B, 0x2160, 0x2170, 0xFF40, 0x1D40A):  # compatibility only: NFC leaves them alone
+        n = u.normalize("NFKC", chr(cp))
+        if len(n) == 1 and ord(n) < 128:
+            out.append((cp, ord(n)))
+    for cp, twin in ((0x2126, 0x3A9), (0x212B, 0xC5), (0x0340, 0x300)):  # canonical singletons to non-ASCII: controls
+        out.append((cp, twin))
+    return out
+
+
 def generate(rng, tier):
     cases, streams = [], []
     seen = set()
@@ -304,6 +326,16 @@ def generate(rng, tier):
                 add(t, v, "text", "targeted")
                 if "s" in v and any(c >= 160 for c in v["s"]) and not any(0xD800 <= c <= 0xDFFF for c in v["s"]):
                     add(t, v, "text", "targeted", raw=True)
+    # history: a canonically equivalent look-alike offered after (or before) its ASCII twin in the same process
+    for la, twin in lookalikes():
+        for t in (["uint", 8, 0], ["uint", 8, 1], ["uint", 8, 2], ["byte"], ["utf8"], ["int", 8, 0], ["uint", 16, 0], ["uint", 7, 0], ["float", 32, 0], ["bool"]):
+            for ch in ("ctor", "text"):
+                if ch == "ctor" and not type_ok(t):
+                    continue
+                for value, prime in ((la, twin), (twin, la), (la, la), (twin, twin), (la, None)):
+                    c = {"t": t, "v": vs([value]), "ch": ch, "prime": [{"t": pt, "v": vs([prime]), "ch": pc} for pt in (t, ["uint", 8, 0]) for pc in ("ctor", "text")] if prime is not None else []}
+                    cases.append(c)
+                    streams.append("targeted")
     n = 1500 if tier == "quick" else 30000
     valid = [t for t in types if type_ok(t)]
     for _ in range(n):
@@ -342,8 +374,8 @@ def run_impl(cases):
     root, ns = scratch_ns("c12")
     path = os.path.join(ns, "T.1.0.dsdl")
     real = os.path.realpath(path)
-    out = []
-    for c in cases:
+
+    def one(c):
         t, v = c["t"], c["v"]
         try:
             if c["ch"] == "ctor":
@@ -357,8 +389,7 @@ def run_impl(cases):
                     (comp,) = pydsdl.read_namespace(ns, [])
                 except pydsdl.InvalidDefinitionError as ex:
                     if ex.path is None or os.path.realpath(str(ex.path)) != real:
-                        out.append({"rej": "CInvalidDefinition", "pred_fail": "error path %r is not the definition file" % (str(ex.path),)})
-                        continue
+                        return {"rej": "CInvalidDefinition", "pred_fail": "error path %r is not the definition file" % (str(ex.path),)}
                     raise
                 (k,) = comp.constants
                 ty = make_type(t)
@@ -371,9 +402,16 @@ def run_impl(cases):
                 obs = {"rej": "COther", "pred_fail": "constant holds a %s" % type(k.value).__name__}
             if k.data_type != ty or type(k.data_type) is not type(ty):
                 obs["pred_fail"] = "declared type changed: %s" % k.data_type
-            out.append(obs)
+            return obs
         except Exception as ex:  # pylint: disable=broad-except
-            out.append({"rej": classify(ex)})
+            return {"rej": classify(ex)}
+
+    out = []
+    for c in cases:
+        for p in c.get("prime", []):  # history only: the outcomes of the priming constants are not part of this case
+            if p["ch"] == "text" or type_ok(p["t"]):
+                one(p)
+        out.append(one(c))
     shutil.rmtree(root, ignore_errors=True)
     return out
 
@@ -408,6 +446,8 @@ def nontrivial(case, obs):
 def describe(case, obs):
     t, v = case["t"], case["v"]
     keys = ["chan:" + case["ch"], "type:" + t[0] + ("" if type_ok(t) else ":invalid")]
+    if "prime" in case:
+        keys.append("history:primed" if case["prime"] else "history:none")
     keys.append("value:" + next(iter(k for k in ("r", "b", "s", "set") if k in v)))
     keys.append("impl:" + ("accepted" if "rej" not in obs else obs["rej"]))
     lo, hi = type_range(t)
